@@ -77,7 +77,7 @@ def render(template_text, repo, ex):
             out.append(ln)
             i += 1
             continue
-        mo = re.match(r'//@(fn|item|semi|carve)\s+(.*)$', st)
+        mo = re.match(r'//@(fn|item|semi|carve|errorcarrier)\s+(.*)$', st)
         if not mo:
             raise rsx.Unsupported('bad directive: ' + st)
         kind, rest = mo.group(1), mo.group(2)
@@ -170,6 +170,45 @@ def render(template_text, repo, ex):
             for x in above:
                 out.append(indent + x)
             out.append(indent + text)
+        elif kind == 'errorcarrier':
+            # errors::Error (a 27-variant enum with multi-field payloads) defeats CBMC's constant
+            # propagation through Result<_, Error> (DESIGN §2).  It is replaced by a one-byte kind
+            # carrier generated from the real enum: same constructor names and arities, payloads dropped.
+            st_, ob, cb = src.braced_item('enum', a['name'])
+            body = src.m[ob + 1:cb]
+            ex.log_span('%s::enum %s (variant list only)' % (a['file'], a['name']), src, st_, src.text[st_:cb + 1])
+            ex.drop('enum %s replaced by a kind-code carrier generated from its variant list (payloads dropped)' % a['name'])
+            vs = []
+            depth = 0
+            cur = ''
+            for ch in body:
+                if ch in '([{<':
+                    depth += 1
+                elif ch in ')]}>':
+                    depth -= 1
+                if ch == ',' and depth == 0:
+                    vs.append(cur.strip())
+                    cur = ''
+                else:
+                    cur += ch
+            if cur.strip():
+                vs.append(cur.strip())
+            gen = ['#[derive(Debug, PartialEq, Clone, Copy)]', 'pub struct %s { pub kind: u8 }' % a['name'],
+                   '#[allow(non_snake_case, non_upper_case_globals)]', 'impl %s {' % a['name']]
+            for k, v in enumerate(vs):
+                mo2 = re.match(r'([A-Za-z_0-9]+)\s*(\((.*)\))?$', v, re.S)
+                if not mo2:
+                    raise rsx.Unsupported('error variant ' + v)
+                nm, args = mo2.group(1), mo2.group(3)
+                gen.append('    pub const K_%s: u8 = %d;' % (nm, k))
+                if args is None:
+                    gen.append('    pub const %s: %s = %s { kind: %d };' % (nm, a['name'], a['name'], k))
+                else:
+                    tys = [t.strip() for t in args.split(',') if t.strip()]
+                    ps = ', '.join('_a%d: %s' % (i2, t) for i2, t in enumerate(tys))
+                    gen.append('    pub fn %s(%s) -> %s { %s { kind: %d } }' % (nm, ps, a['name'], a['name'], k))
+            gen.append('}')
+            out.append('\n'.join(indent + g for g in gen))
         elif kind == 'carve':
             fn = src.fn_item(a['fn'], a.get('impl'))
             text = rsx.carve(fn, a['from'], a['to'])
